@@ -139,6 +139,7 @@ def gen(rng, tier):
           'reader_order': rng.sample(range(nreaders), nreaders),
           'extra_bindings': extra,
           'second_root': rng.random() < 0.3 and nfiles > 1,
+          'repeat_root': rng.random() < 0.5,
           'finalize': rng.choice([None, True, False]),
           'unknown_in_extra': rng.random() < 0.2,
           'layout_seed': rng.getrandbits(32),
@@ -528,6 +529,8 @@ def _entry(case, scratch, v, lg, cnt):
   roots = [case['names'][0]]
   if case.get('second_root'):
     roots.append(case['names'][-1])
+    if case.get('repeat_root'):
+      roots.append(case['names'][0])   # files are applied in the order GIVEN
   applied = []
   bad = False
   for r in roots:
